@@ -396,7 +396,35 @@ pub fn str_class(s: &str) -> &'static str {
     }
 }
 
+/// does the name end like the mantissa of a scientific number: <digit 1-9>[.digits]E
+pub fn sci_like_name(name: &str) -> Option<bool> {
+    let lower = name.ends_with('e');
+    if !(name.ends_with('E') || lower) {
+        return None;
+    }
+    let body = &name[..name.len() - 1];
+    let digits_tail: String = body.chars().rev().take_while(|c| c.is_ascii_digit()).collect();
+    let rest = &body[..body.len() - digits_tail.len()];
+    let ok = if digits_tail.is_empty() {
+        false
+    } else if let Some(r2) = rest.strip_suffix('.') {
+        r2.chars().last().map_or(false, |c| ('1'..='9').contains(&c))
+    } else {
+        digits_tail.chars().next().map_or(false, |c| ('1'..='9').contains(&c))
+    };
+    if ok {
+        Some(lower)
+    } else {
+        None
+    }
+}
+
 pub fn name_class(name: &str) -> &'static str {
+    match sci_like_name(name) {
+        Some(false) => return "name-sci-like",
+        Some(true) => return "name-sci-like-lower-e",
+        None => {}
+    }
     let first = name.chars().next().unwrap_or('a');
     let letters: String = name.chars().take_while(|c| c.is_ascii_uppercase()).collect();
     let after: String = name.chars().skip(letters.len()).collect();
@@ -1454,6 +1482,8 @@ pub fn name_text() -> BoxedStrategy<String> {
         2 => "[A-Z][a-z]{3,6}[0-9]{1,4}".prop_map(|s| s),
         1 => "_[a-z]{2,6}".prop_map(|s| s),
         1 => "[a-z]{2,5}\\.[a-z]{2,5}".prop_map(|s| s),
+        // names that END like the mantissa of a scientific number: CO2E, Scope3E, Mass2.5E
+        2 => sci_name(),
         // legal names that BEGIN like a cell: Q1.Sales, FY24.Rate, A1_total, h2.mass
         2 => "[A-Z]{1,3}[0-9]{1,4}\\.[A-Za-z]{2,6}".prop_map(|s| s),
         1 => "[A-Z]{1,3}[0-9]{1,4}_[a-z]{2,6}".prop_map(|s| s),
@@ -1469,6 +1499,36 @@ pub fn name_text() -> BoxedStrategy<String> {
         }
     })
     .boxed()
+}
+
+pub fn sci_name() -> BoxedStrategy<String> {
+    prop_oneof![
+        3 => "[A-Z][a-z]{2,6}[1-9]E".prop_map(|s| s),
+        2 => "[A-Z]{2}[1-9]E".prop_map(|s| s),
+        2 => "[A-Z][a-z]{2,5}[1-9]\\.[0-9]{1,2}E".prop_map(|s| s),
+        3 => prop::sample::select(vec!["CO2E", "Scope3E", "Q4E", "Rate1E", "Mass2.5E", "N1E", "X9.99E"]).prop_map(|s| s.to_string()),
+        2 => prop::sample::select(vec!["co2e", "Scope3e", "rate1e", "mass2.5e"]).prop_map(|s| s.to_string()),
+    ]
+    .boxed()
+}
+
+/// `<name ending like a mantissa> +/- <relative reference>` and `<scientific number> +/-
+/// <relative reference>`: the two must stay distinguished
+fn sci_neighbours() -> BoxedStrategy<Expr> {
+    let rel = (opt_qual(), area()).prop_map(|(qual, area)| Expr::Ref(RefNode { qual, area: area.relative(), lower: false }));
+    let left = prop_oneof![
+        5 => (prop_oneof![4 => Just(None), 1 => qual().prop_map(Some)], sci_name()).prop_map(|(qual, name)| Expr::Name { qual, name }),
+        2 => prop::sample::select(vec!["1E+5", "2.5E-3", "1E3", "9E", "1.5E+10"]).prop_map(|s| Expr::Num(if s == "9E" { "9E1".to_string() } else { s.to_string() })),
+    ];
+    (left, prop::sample::select(vec!["+", "-"]), rel, prop_oneof![3 => Just(None), 1 => prop::sample::select(vec!["1E+5", "2.5E-3", "1E3"]).prop_map(Some)])
+        .prop_map(|(l, op, r, tail)| {
+            let b = Expr::Binary { op: op.to_string(), l: Box::new(l), r: Box::new(r) };
+            match tail {
+                None => b,
+                Some(n) => Expr::Binary { op: "+".into(), l: Box::new(b), r: Box::new(Expr::Num(n.to_string())) },
+            }
+        })
+        .boxed()
 }
 
 fn err_text() -> BoxedStrategy<String> {
@@ -1506,6 +1566,7 @@ fn leaf() -> BoxedStrategy<Expr> {
         14 => ref_node().prop_map(Expr::Ref),
         4 => (prop_oneof![5 => Just(None), 1 => qual().prop_map(Some)], name_text()).prop_map(|(qual, name)| Expr::Name { qual, name }),
         2 => structured(),
+        2 => sci_neighbours(),
         1 => array(),
         1 => prop::sample::select(vec!["NOW", "PI", "RAND", "TODAY", "NA"]).prop_map(|n| Expr::Func { name: n.to_string(), args: vec![] }),
     ]
